@@ -1,7 +1,8 @@
 /-
 Model of the cron scheduler object: node/cron.go.
 
-  * `Sched`      — the `cron` struct: `jobs` (map name → *cronJob), `spool` (queue of *cronJob), `next`.
+  * `Sched`      — the `cron` struct: `jobs` (map name → *cronJob), `spool` (queue of cronSpoolItem:
+                   *cronJob + the minute it was spooled for), `next`.
                    Job objects live in a heap `objs` indexed by pointer (allocation number), because the
                    spool keeps pointers to objects that RemoveJob has already deleted from the map.
   * `step`       — AddJob, RemoveJob, EnableJob, DisableJob, the timer function (`tick`), and the two
